@@ -169,6 +169,38 @@ pub fn dump(lib: &Library, db: &Database) -> Vec<(String, String)> {
     out
 }
 
+/// the same library seen through the LSP server's handlers (set-valued answers compared as sets)
+pub fn lsp_dump(lib: &Library, v: &Variant) -> Vec<(String, String)> {
+    let keys: Vec<String> = lib.notes.keys().cloned().collect();
+    // names an editor would percent-encode address another key on the server side than the library key
+    // (C14's subject): such libraries are compared at the liwe level only
+    if keys.iter().any(|k| crate::canon::uri(k).as_str().contains('%')) {
+        return vec![];
+    }
+    let order = permuted(&keys, v.perm_seed);
+    let server = if v.kind == "inserts" {
+        let mut s = crate::canon::new_server(&BTreeMap::new(), &lib.refs_ext);
+        for k in &order {
+            crate::canon::did_change(&mut s, k, &lib.notes[k]);
+        }
+        s
+    } else {
+        // BTreeMap -> HashMap inside new_server: insertion order there is the sorted one; the hash seed varies
+        crate::canon::new_server(&lib.notes, &lib.refs_ext)
+    };
+    let mut out = vec![];
+    for k in &keys {
+        out.push((format!("lsp-references:{}", k), crate::canon::references(&server, k).unwrap_or_else(|e| e)));
+        out.push((format!("lsp-hints:{}", k), crate::canon::hints(&server, k).unwrap_or_else(|e| e)));
+        out.push((format!("lsp-dsym:{}", k), crate::canon::document_symbols(&server, k).unwrap_or_else(|e| e)));
+        out.push((format!("lsp-format:{}", k), crate::canon::formatting(&server, k).unwrap_or_else(|e| e)));
+    }
+    for q in &lib.queries {
+        out.push((format!("lsp-wsym:{}", q), crate::canon::workspace_symbols(&server, q).unwrap_or_else(|e| e)));
+    }
+    out
+}
+
 /// run one variant on fresh threads (fresh pool => hash keys from the variant's entropy)
 pub fn run_variant(lib: &Library, v: &Variant) -> Result<Vec<(String, String)>, String> {
     crate::entropy::set(v.entropy);
@@ -178,7 +210,13 @@ pub fn run_variant(lib: &Library, v: &Variant) -> Result<Vec<(String, String)>, 
         let probe: std::collections::HashSet<u32> = (0..24).collect();
         let order = probe.iter().fold(0u64, |h, x| h.wrapping_mul(31).wrapping_add(*x as u64));
         HASH_ORDERS.with(|c| c.set(order));
-        guarded(|| dump(lib, &build(lib, v)))
+        guarded(|| {
+            let mut d = dump(lib, &build(lib, v));
+            if lib.notes.len() <= 60 {
+                d.extend(lsp_dump(lib, v));
+            }
+            d
+        })
     });
     let order = pool.install(|| HASH_ORDERS.with(|c| c.get()));
     LAST_HASH_ORDER.with(|c| c.set(order));
